@@ -49,8 +49,12 @@ def dna_of(rng, maxlen):
 
 def payloads(rng, tier):
     n = {"quick": 500, "thorough": 6000, "search": 600}[tier]
-    mb = {"quick": 600, "thorough": 4096, "search": 200}[tier]
-    md = {"quick": 300, "thorough": 2048, "search": 100}[tier]
+    mb = {"quick": 600, "thorough": 1200, "search": 200}[tier]
+    md = {"quick": 300, "thorough": 600, "search": 100}[tier]
+    if tier == "thorough":      # a few inputs at the documented extreme lengths (the string arithmetic is quadratic)
+        for _ in range(40):
+            yield "bits", {"bits": bits_of(rng, 4096)}
+            yield "dna", {"dna": dna_of(rng, 2048)}
     for b in [[], [0], [1], [0, 0], [1, 0], [0, 1, 0, 1, 0, 1, 0, 1], [1] * 64, [0] * 9 + [1]]:
         yield "bits", {"bits": b}
     for s in ["", "A", "T", "AA", "ACGT", "AAAC", "T" * 33]:
